@@ -1,19 +1,21 @@
 #!/bin/bash
-# seedrecheck.sh : re-run the current checks against every kept seeded change (scratch copies, removed afterwards)
-# and record the result in meta.json as caught_by_now; prints one line per change and fails if the property's own
-# check does not report it.
-cd /verif; rc=0
-for d in seeded/*/; do
-  n=$(basename $d); id=${n%%-*}
+# seedrecheck.sh [jobs] : re-run the current checks against every kept seeded change (scratch copies, removed
+# afterwards), record the result in meta.json as caught_by / caught_by_now, print one line per change and fail if
+# the property's own check does not report it.
+cd /verif; J=${1:-4}
+one() {
+  d=$1; n=$(basename $d); id=${n%%-*}
   caught=$(scripts/seedcheck.sh $d/patch.diff all 2>/dev/null | grep -E "^C[0-9]+ violations=" | awk '{print $1}' | tr '\n' ' ')
   python3 - "$d/meta.json" "$caught" <<'PY'
 import json,sys
-m=json.load(open(sys.argv[1])); m["caught_by_now"]=sys.argv[2].split()
+m=json.load(open(sys.argv[1])); now=sys.argv[2].split()
 if "caught_by_when_first_run" not in m: m["caught_by_when_first_run"]=m.get("caught_by",[])
-m["caught_by"]=m["caught_by_now"]
+m["caught_by_now"]=now; m["caught_by"]=now
 json.dump(m,open(sys.argv[1],"w"),indent=1)
 PY
-  case " $caught" in *" $id "*) st=CAUGHT;; *) st=MISSED; rc=1;; esac
-  echo "$st $n by [$caught]"
-done
-exit $rc
+  case " $caught" in *" $id "*) echo "CAUGHT $n by [$caught]";; *) echo "MISSED $n by [$caught]";; esac
+}
+export -f one
+ls -d seeded/*/ | sed 's#/$##' | xargs -P $J -I{} bash -c 'one {}' | sort > /tmp/seedrecheck.out
+cat /tmp/seedrecheck.out
+! grep -q "^MISSED" /tmp/seedrecheck.out
